@@ -1,6 +1,7 @@
 package main
 
 import (
+	"go/types"
 	"strings"
 
 	"golang.org/x/tools/go/ssa"
@@ -9,7 +10,7 @@ import (
 func init() { registry["C14"] = checkC14 }
 
 func checkC14(c *Check) {
-	c.Explanation = "Decided by path-sensitive abstract interpretation of the deployment manager's loop function over its SSA (domain: the manager's state field as one of its six constants, the operation channel and the hostname-reservation channel as nil / pending / drained one-shot tokens, flags for teardown requested, teardown started, shutdown requested, hostname failure; start helpers are summarised from their bodies: state := constant, returns a fresh pending operation): (R1) no cluster operation is started while another is pending; (R2) no deploy is started in a state where teardown was requested; (R3) every exit state in which teardown was requested has started the teardown unless shutdown was requested or the hostname reservation failed; the two INVALID STATE panics are unreachable; (R4) each update stores the manifest before any deploy starts and the deploy reads the stored manifest; (R5) the state field is written only by the loop, its two start helpers and the constructor; (R6) the service routes lease-closed to the manager's teardown or releases the reservation of an unmanaged order, releases the reservation and forgets the manager when it is done, creates a manager only on a map miss, and reserved hostnames are released on exit."
+	c.Explanation = "Decided by path-sensitive abstract interpretation of the deployment manager's loop function over its SSA (domain: the manager's state field as one of its six constants, the operation channel and the hostname-reservation channel as nil / pending / drained one-shot tokens, flags for teardown requested, teardown started, shutdown requested, hostname failure; start helpers are summarised from their bodies: state := constant, returns a fresh pending operation): (R1) no cluster operation is started while another is pending; (R2) no deploy is started in a state where teardown was requested; (R3) every exit state in which teardown was requested has started the teardown unless shutdown was requested or the hostname reservation failed; the two INVALID STATE panics are unreachable; (R4) each update stores the manifest before any deploy starts and the deploy reads the stored manifest; (R5) the state field is written only by the loop, its two start helpers and the constructor; (R6) the service routes lease-closed to the manager's teardown or releases the reservation of an unmanaged order, releases the reservation and forgets the manager when it is done, creates a manager only on a map miss, and reserved hostnames are released on exit and are the ones reserved; (R7) the hostname service's reserve / can-reserve / release entry points all send the loop a fresh slice of strings.ToLower(name) and the loop keys its map by the received names unchanged."
 	c.NotDecided = "that Deploy/Teardown of the cluster client terminate; retries inside the teardown"
 	l := c.L
 	run := l.Func("provider/cluster", "deploymentManager", "run")
@@ -320,6 +321,148 @@ func checkC14(c *Check) {
 			}
 		})
 		c.Ob("R6", "successfully reserved hostnames are released when the manager exits", run.Pos(), rel, "")
+		// ... and the release names exactly what the reservation named
+		var resArg, relArg string
+		eachInstr(run, func(i ssa.Instruction) {
+			if ci, ok := i.(ssa.CallInstruction); ok {
+				switch calleeMethod(ci) {
+				case "ReserveHostnames":
+					resArg = Sym(userArgs(ci)[0])
+				case "ReleaseHostnames":
+					relArg = Sym(userArgs(ci)[0])
+				}
+			}
+		})
+		c.Ob("R6", "the hostnames released are the hostnames reserved", run.Pos(), resArg != "" && resArg == relArg, "reserved "+short(resArg)+" but released "+short(relArg))
+	}
+	c.hostnameNormalisation()
+	// subscribe-then-snapshot: a lease-closed event published while the start-up snapshot of deployed leases is being
+	// taken must already be buffered by the subscription, or the manager created from the snapshot is never told
+	{
+		ns := l.Func("provider/cluster", "", "NewService")
+		c.Analysed(fnName(ns))
+		var sub, snap ssa.CallInstruction
+		for _, call := range callsIn(ns, false) {
+			if calleeMethod(call) == "Subscribe" {
+				sub = call
+			}
+			if g := call.Common().StaticCallee(); g != nil && g.Name() == "findDeployments" {
+				snap = call
+			}
+		}
+		ok := sub != nil && snap != nil && instrDominates(sub.(ssa.Instruction), snap.(ssa.Instruction))
+		pos := ns.Pos()
+		if snap != nil {
+			pos = snap.Pos()
+		}
+		c.Ob("R6", "the service subscribes to the event bus before it snapshots the deployed leases", pos, ok, "leases are listed before the bus subscription exists: a lease-closed event published in between is lost, the lease gets a manager and is never torn down")
+	}
+}
+
+// hostnameNormalisation (R7): the hostname service's three entry points hand the service loop the same normal form
+// of the names (a fresh slice filled with strings.ToLower of each given name), and the loop uses the received names
+// as map keys unchanged. Reserve and release then address the same keys whatever the spelling in the manifest.
+func (c *Check) hostnameNormalisation() {
+	l := c.L
+	n := 0
+	for _, name := range []string{"ReserveHostnames", "CanReserveHostnames", "ReleaseHostnames"} {
+		fn := l.Func("provider/cluster", "hostnameService", name)
+		c.Analysed(fnName(fn))
+		var sent ssa.Value
+		eachInstr(fn, func(i ssa.Instruction) {
+			var v ssa.Value
+			switch x := i.(type) {
+			case *ssa.Select:
+				for _, st := range x.States {
+					if st.Send != nil {
+						v = st.Send
+					}
+				}
+			case *ssa.Send:
+				v = x.X
+			}
+			if v == nil {
+				return
+			}
+			// a request struct: take its hostnames field
+			if _, isStruct := v.Type().Underlying().(*types.Struct); isStruct {
+				if ld, isLd := v.(*ssa.UnOp); isLd {
+					if a, isA := ld.X.(*ssa.Alloc); isA {
+						for _, st := range fieldStores(fn, func(fa *ssa.FieldAddr) bool {
+							return fa.X == ssa.Value(a) && fieldName(fa.X.Type(), fa.Field) == "hostnames"
+						}) {
+							v = st.Val
+						}
+					}
+				}
+			}
+			if _, isSlice := v.Type().Underlying().(*types.Slice); isSlice {
+				sent = v
+			}
+		})
+		n++
+		ok := false
+		why := "no hostname list is sent to the service loop"
+		if sent != nil {
+			mk, isMk := sent.(*ssa.MakeSlice)
+			why = "the list sent to the service loop is " + short(Sym(sent)) + ", not the lower-cased copy: names are reserved under one spelling and released/checked under another"
+			if isMk {
+				stores, lower := 0, 0
+				for _, r := range *mk.Referrers() {
+					ia, isIA := r.(*ssa.IndexAddr)
+					if !isIA {
+						continue
+					}
+					for _, rr := range *ia.Referrers() {
+						if st, isSt := rr.(*ssa.Store); isSt && st.Addr == ssa.Value(ia) {
+							stores++
+							if cv, _ := callOf(st.Val); cv != nil && calleeFull(cv) == "strings.ToLower" && strings.HasPrefix(Sym(cv.Call.Args[0]), "*p:hostnames[") {
+								lower++
+							}
+						}
+					}
+				}
+				ok = stores > 0 && stores == lower && Sym(mk.Len) == "builtin.len(p:hostnames)"
+				why = "the list sent to the service loop is not filled with strings.ToLower of every given name"
+			}
+		}
+		c.Ob("R7", name+" hands the service loop the lower-cased names", fn.Pos(), ok, why)
+	}
+	// the loop side: map keys are the received names
+	for _, name := range []string{"doRequest", "doRelease"} {
+		fn := l.Func("provider/cluster", "hostnameService", name)
+		c.Analysed(fnName(fn))
+		ok, seen := true, 0
+		detail := ""
+		eachInstr(fn, func(i ssa.Instruction) {
+			var key ssa.Value
+			switch x := i.(type) {
+			case *ssa.MapUpdate:
+				key = x.Key
+			case *ssa.Lookup:
+				if _, isMap := x.X.Type().Underlying().(*types.Map); isMap {
+					key = x.Index
+				}
+			case ssa.CallInstruction:
+				if calleeFull(x) == "builtin.delete" {
+					key = x.Common().Args[1]
+				}
+			}
+			if key == nil {
+				return
+			}
+			seen++
+			ks := Sym(key)
+			if !(strings.HasPrefix(ks, "*p:hostnames[") || strings.HasPrefix(ks, "*p:rr.hostnames[")) {
+				ok = false
+				detail = "in-use map addressed by " + short(ks)
+			}
+		})
+		n++
+		c.Ob("R7", name+" addresses the in-use map by the received names unchanged", fn.Pos(), ok && seen > 0, detail)
+	}
+	if n != 5 {
+		c.Fail("C14-R7 lost instances")
 	}
 }
 
